@@ -9,6 +9,7 @@ import (
 	_ "kvassverif/disco"
 	_ "kvassverif/k8seng"
 	_ "kvassverif/node"
+	_ "kvassverif/cmdworld"
 	_ "kvassverif/world"
 )
 
